@@ -1,6 +1,6 @@
 """C17 - All storage backends implement the same write-once contract (sibling cross-check)."""
 from ..cfg import cfg_of
-from ..defuse import du_of, walk, peel, callee_name, fmt
+from ..defuse import du_of, walk, peel, callee_name, fmt, inline_calls
 from ..conds import lits_of
 from ..callgraph import cg_of
 from ..common import arg_term, contains_call, call_named, ADAPTER_TRAIT, assigns_of_return, root_fn
@@ -265,7 +265,7 @@ def listing_ok(facts, body, t, ext_names, depth, guarded=False):
             rs = []
             for (pb, bi, call, kind) in prods:
                 if kind == "push":
-                    v = arg_term(pb, call, 1, 30)
+                    v = inline_calls(arg_term(pb, call, 1, 30), facts)     # a private helper may compute the listed name
                     s_ok = _strip_ok(v, ext_names)
                     g = guarded or _under_ends_with(facts, pb, bi, ext_names) or _strip_no_fallback(v, ext_names)
                     rs.append((g and s_ok, "push at %s: under ends_with(ext)=%s, through strip_suffix(ext)=%s" % (pb.loc(call.line), g, s_ok)))
@@ -283,7 +283,7 @@ def listing_ok(facts, body, t, ext_names, depth, guarded=False):
             if cl:
                 cb = facts.body(cl[0][1])
                 if cb is not None:
-                    rt = du_of(cb).local_term(0, 30)
+                    rt = inline_calls(du_of(cb).local_term(0, 30), facts)   # `filter_map(|e| listed_name(&e, ext))`
                     s_ok = _strip_ok(rt, ext_names)
                     g = guarded or _chain_has_filter(facts, t[2][0], ext_names) or _closure_some_guarded(facts, cb, ext_names) or \
                         _strip_no_fallback(rt, ext_names)
@@ -386,8 +386,8 @@ def check_wrapper(b, facts, res):
         for bi, t in body.calls():
             c = t.callee
             if c is not None and c.trait == ADAPTER_TRAIT and c.name == m:
-                k = arg_term(body, t, 1, 20)
-                ls = sorted({x[2] for x in walk(k) if x[0] == "const" and x[1] == "str"})
+                k = inline_calls(arg_term(body, t, 1, 30), facts)       # `backend_key(key)` / `marked(key)` helpers
+                ls = sorted({x[2] for x in walk(k) if x[0] == "const" and x[1] == "str" and x[2]})
                 pn = "ext" if m == "list_objects" else "key"
                 passes = any(x[0] == "param" and x[2] == pn for x in walk(k))
                 lits[m] = (tuple(ls), passes)
@@ -400,7 +400,7 @@ def check_wrapper(b, facts, res):
             body = b.methods.get(m)
             if body is None:
                 continue
-            for bi, t in body.calls():
+            for bi, t in [(bi_, t_) for rb_ in b.reach(m) for bi_, t_ in rb_.calls()]:      # the method and its private helpers
                 c = t.callee
                 if c is None or c.krate in ("std", "core", "alloc", "anyhow", "melda"):
                     continue
@@ -425,7 +425,7 @@ def check_wrapper(b, facts, res):
     lb = b.methods.get("list_objects")
     if lit and lb is not None:
         stripped = set()
-        for cb in [lb] + facts.closures_of(lb.path):
+        for cb in b.reach("list_objects"):
             for bi, t in cb.calls():
                 if t.callee is not None and t.callee.name in ("trim_end_matches", "strip_suffix", "trim_suffix"):
                     for x in walk(arg_term(cb, t, 1, 8)):
@@ -449,23 +449,27 @@ def check_ranged_read(b, facts, res):
     work = list(base)
     while work:
         m0, r0 = work.pop()
-        du0 = du_of(m0)
-        for bi, t in m0.calls():
-            hb = facts.body(t.callee.target()) if t.callee is not None else None
-            if hb is None or not hb.in_repo() or hb.kind == "closure" or hb.path in seen_h or hb.impl_trait == ADAPTER_TRAIT or len(seen_h) > 6:
-                continue
-            hr = {"offset": set(), "length": set()}
-            for i, a in enumerate(t.args):
-                at = du0.operand_term(a, 10)
-                for x in walk(at):
-                    if x[0] == "param":
+        rf0 = root_fn(m0)
+        for mm in [m0] + facts.closures_of(m0.path):
+            dum = du_of(mm)
+            for bi, t in mm.calls():
+                hb = facts.body(t.callee.target()) if t.callee is not None else None
+                if hb is None or not hb.in_repo() or hb.kind == "closure" or hb.path in seen_h or hb.impl_trait == ADAPTER_TRAIT or len(seen_h) > 6:
+                    continue
+                hr = {"offset": set(), "length": set()}
+                for i, a in enumerate(t.args):
+                    at = dum.operand_term(a, 10)
+                    for x in walk(at):
                         for rn in ("offset", "length"):
-                            if x[1] in r0[rn]:
+                            if x[0] == "param" and mm.kind != "closure" and x[1] in r0[rn]:
                                 hr[rn].add(i + 1)
-            if hr["offset"] or hr["length"]:
-                seen_h.add(hb.path)
-                base.append((hb, hr))
-                work.append((hb, hr))
+                            # inside a closure the parameter is a captured variable of the same name
+                            if x[0] == "upvar" and mm.kind == "closure" and any(i_ <= rf0.argc and rf0.local_name(i_) == x[2] for i_ in r0[rn]):
+                                hr[rn].add(i + 1)
+                if hr["offset"] or hr["length"]:
+                    seen_h.add(hb.path)
+                    base.append((hb, hr))
+                    work.append((hb, hr))
     members_r = []
     for m0, r0 in base:
         members_r.append((m0, r0))
